@@ -54,7 +54,7 @@ func serverRecord(inst *wisInstance, c *xdsClient, t string) (names []string, ex
 // checkRecord: after any exchange with a conformant client whose last message was processed and was not a
 // rejection, the server's record of the subscription equals what the client last asked for.
 func (w *wis) checkRecord(c *xdsClient, where string) {
-	for _, t := range []string{v3.EndpointType, v3.RouteType} {
+	for _, t := range []string{v3.EndpointType, v3.RouteType, v3.ExtensionConfigurationType} {
 		s := c.sub[t]
 		if s == nil || !s.requested || s.rejected {
 			continue
@@ -93,7 +93,8 @@ func runC04(t *testing.T, r *engine.Run) {
 		r.Inconclusive = "no initial quiescence"
 		return
 	}
-	wd := newWorld(tp, []string{"ServiceEntry", "DestinationRule", "VirtualService", "Sidecar", "PeerAuthentication"})
+	// WasmPlugin: listeners then refer to extension configurations by config discovery (ECDS, a by-name type)
+	wd := newWorld(tp, []string{"ServiceEntry", "DestinationRule", "VirtualService", "Sidecar", "PeerAuthentication", "WasmPlugin"})
 	wd.collide = 0
 	r.Logf("client=%s delta=%v", c.name, delta)
 
@@ -196,10 +197,11 @@ func runC04(t *testing.T, r *engine.Run) {
 
 	// ---- phase B: quiet system, one protocol event at a time from a quiescent state; each is exactly attributable
 	eventsB := 3 + tp.Choose(10, "eventsB")
+	dropped := map[string][]string{} // names the client unsubscribed from in this phase, per type
 	for i := 0; i < eventsB && !r.Failed() && !tp.Exhausted(); i++ {
 		r.Steps++
 		typs := []string{}
-		for _, t := range []string{v3.ClusterType, v3.EndpointType, v3.ListenerType, v3.RouteType} {
+		for _, t := range []string{v3.ClusterType, v3.EndpointType, v3.ListenerType, v3.RouteType, v3.ExtensionConfigurationType} {
 			if s := c.sub[t]; s != nil && s.requested && s.nonce != "" && (s.wildcard || len(s.names) > 0) {
 				typs = append(typs, t)
 			}
@@ -211,7 +213,15 @@ func runC04(t *testing.T, r *engine.Run) {
 		s := c.sub[typ]
 		kinds := []string{"ack_again", "nack", "stale_nonce"}
 		if !s.wildcard {
-			kinds = append(kinds, "add_name", "add_name")
+			if typ != v3.ExtensionConfigurationType { // istio does not answer for extension configurations that do not exist
+				kinds = append(kinds, "add_name", "add_name")
+			}
+			if len(s.names) > 1 {
+				kinds = append(kinds, "drop_name")
+			}
+			if len(dropped[typ]) > 0 {
+				kinds = append(kinds, "readd_name")
+			}
 		}
 		kind := kinds[tp.Choose(len(kinds), "evkind")]
 		tp.Note(kind + ":" + shortType(typ))
@@ -259,11 +269,36 @@ func runC04(t *testing.T, r *engine.Run) {
 				}
 				req = mkSotw("stale-"+s.nonce, extra, false)
 			}
-		case "add_name":
+		case "drop_name":
+			// a request that only removes a name is a changed resource set: the server may answer or not
+			// (istio answers delta ECDS unsubscriptions with an empty response); the record must follow (checked below)
+			n := names[tp.Choose(len(names), "dropname")]
+			delete(s.names, n)
+			delete(s.held, n)
+			dropped[typ] = append(dropped[typ], n)
+			if c.delta {
+				req = &discovery.DeltaDiscoveryRequest{TypeUrl: typ, ResourceNamesUnsubscribe: []string{n}}
+			} else {
+				req = mkSotw(s.nonce, sortedNames(s.names), false)
+			}
+			s.lastReq = sortedNames(s.names)
+		case "add_name", "readd_name":
 			mustAnswer = true
 			n := fmt.Sprintf("outbound|80||added%d.example.com", i)
 			if typ == v3.RouteType {
 				n = fmt.Sprintf("90%d", i)
+			}
+			if typ == v3.ExtensionConfigurationType {
+				n = fmt.Sprintf("added%d.example.com", i)
+			}
+			if kind == "readd_name" { // subscribe again to a name dropped earlier: answered like any added name
+				d := dropped[typ]
+				k := tp.Choose(len(d), "readd")
+				n = d[k]
+				dropped[typ] = append(d[:k:k], d[k+1:]...)
+				if c.answered[typ] != nil {
+					delete(c.answered[typ], n)
+				}
 			}
 			added = []string{n}
 			s.names[n] = struct{}{}
